@@ -44,7 +44,7 @@ func HostileArgs(g *G, c *core.Case) {
 				want = bad + " ("
 			}
 		case 0:
-			bad = g.Pick([]string{"Missing", "NoSuchThing", "missing", "Xyz1", "Ünknown", "A B"})
+			bad = g.Pick([]string{"Missing", "NoSuchThing", "missing", "Xyz1", "Ünknown", "A B", "[]Item", "Store(", "Repo[", "*Thing", "a\\", "Thing)", "(?P<", "map[string]int", "Store[int]", "x|y", "+"})
 			want = "interface not found: " + bad
 		case 1:
 			if len(nonIface) > 0 {
